@@ -197,6 +197,8 @@ def chan_mc(rep, tier, kinds=("q", "rv", "os")):
         # Layer P of the bounded mpsc credit-before-claim protocol (claim / overshoot tombstone / wake pairing)
         add_mc(rep, mc_cached("chan", "MpscBoundedP", "MC_MpscP.cfg", [], workers=2))
         add_mc(rep, mc_cached("chan", "MpscBoundedP", "MC_MpscP_k2.cfg", [], workers=4))
+        # Layer P of the lock-based mpmc waiter / disconnect protocol (as repaired by af629bb)
+        add_mc(rep, mc_cached("chan", "MpmcWaitP", "MC_MpmcWaitP.cfg", [], workers=4))
     if "rv" in kinds:
         # Layer P of the rendezvous hand-off / cancellation protocol (as fixed by 6a381f1)
         add_mc(rep, mc_cached("chan", "RendezvousP", "RendezvousP_fixed.cfg", [], workers=2))
